@@ -34,7 +34,8 @@ def ids_of(canon):
         i = e.get("id")
         if i is not None:
             ids.append(i)
-            leaf[i] = len(e) == 0 and e.tag in ("mi", "mn", "mo", "mtext", "ms", "mspace", "mglyph", "none", "mprescripts")
+            # MATHML_LEAF_NODES of xpath_functions.rs (what set_navigation_node_from_id asks)
+            leaf[i] = e.tag.split("}")[-1] in ("mi", "mo", "mn", "mtext", "ms", "mspace", "mglyph", "none", "annotation", "ci", "cn", "csymbol")
     return root.get("id"), ids, leaf
 
 
